@@ -587,7 +587,7 @@ class Prop:
         if op == "gaussian":
             if res["shape"] != exp["shape"]:
                 return False, "gaussian has shape %s, requested %s" % (res["shape"], exp["shape"])
-            if abs(res["sum"] - 1.0) > TOL:
+            if not (abs(res["sum"] - 1.0) <= TOL):     # NaN-safe
                 return False, "gaussian sums to %r" % res["sum"]
             if not res["min"] >= 0:
                 return False, "gaussian has a negative or undefined entry (%r)" % res["min"]
@@ -614,7 +614,7 @@ class Prop:
                 if not np.all(np.isfinite(a)):
                     return False, "output %d has non-finite entries" % i
                 err = float(np.max(np.abs(a - b)))
-                if err > tol * max(1.0, float(np.max(np.abs(b)))):
+                if not np.all(np.isfinite(b)) or not (err <= tol * max(1.0, float(np.max(np.abs(b))))):   # NaN-safe
                     return False, "output %d differs from the NumPy result by %g (got %s..., expected %s...)" % (
                         i, err, a.tolist()[:6], b.tolist()[:6])
         return True, ""
